@@ -106,8 +106,7 @@ Definition check_case (c : case) : N :=
       let spec := response_equiv impl (ref_response q cands)
                   && Nat.eqb hits (match impl with RProxy _ => 1 | _ => 0 end)
                   && match impl with RRedirect c _ => code_ok c | RBadCode _ => false | _ => true end in
-      let region := if region_no_xfp q cands then Some 3
-                    else if any_adjacent (somes cands) then Some 1 else None in
+      let region := if any_adjacent (somes cands) then Some 1 else None in
       let nontriv := match m with RRedirect _ _ => true | _ => Nat.ltb 1 (length cands) end in
       verdict same spec region nontriv
   | CSched t qa qb la lb =>
@@ -128,8 +127,9 @@ Definition check_case (c : case) : N :=
       let hits_ok := forallb (fun s => match s with (_, _, resp, h) => Nat.eqb h (upstream_calls resp) end) steps in
       let same := list_all2 (response_same adj) impls (history_model [] steps) && hits_ok in
       (* C13_answer_from_request_alone / C13_serial_schedule_own: in a serial history every
-         answer is the one the request gets when it is handled on fresh targets *)
-      let owns := map (fun s => match s with (q, cands, _, _) => fst (handle q cands []) end) steps in
+         answer is the one the request gets when it is handled on fresh targets, and that one is
+         the reference answer [ref_response] (C13_self_redirect_skipped) *)
+      let owns := map (fun s => match s with (q, cands, _, _) => ref_response q cands end) steps in
       let spec := list_all2 response_equiv impls owns && hits_ok in
       let region := if adj then Some 1 else None in
       verdict same spec region (Nat.ltb 1 (length steps))
